@@ -1,7 +1,6 @@
 (* C07: ties tools/panic_map.json to this development.  Every inventoried site that
    the map classifies as "model" cites a lemma; [proved] lists the lemmas of
-   Proofs/C07 by name (each name is also [Check]ed, so it exists with the statement
-   proved in its file), and the finite check below fails to compile when the
+   Proofs/C07 by name (each name also occurs in [proved_terms], so it exists), and the finite check below fails to compile when the
    map cites a lemma that is not in the list, or when the source gains a site
    the map does not know (Gen/PanicSites.v is regenerated from /repo on every run). *)
 From Coq Require Import NArith List String Bool.
@@ -10,30 +9,32 @@ From GV Require Import Gen.PanicSites Model.RuntimeIndex
 Import ListNotations.
 Local Open Scope string_scope.
 
-Check equality_start_no_panic.
-Check make_list_start_no_panic.
-Check simple_item_no_panic.
-Check simple_assoc_probe_no_panic.
-Check simple_end_list_no_panic.
-Check simple_concat_slice_window_no_panic.
-Check conversion_depth_bounded.
-Check usize_of_num_no_panic.
-Check size_iter_no_panic.
-Check vec_iter_no_panic.
-Check block_prefix_slice_no_panic.
-Check data_run_slice_no_panic.
-Check block_get_no_panic.
-Check block_push_no_panic.
-Check realloc_copy_no_panic.
-Check bsearch_no_panic.
-Check basic_assoc_slice_no_panic.
-Check extents_no_panic.
-Check concat_iter_no_panic.
-Check basic_end_list_slice_no_panic.
-Check pop_frame_no_panic.
-Check bytes_conv_slice_no_panic.
-Check bytes_to_i32_no_panic.
-Check list_item_in_range_some.
+(* each cited name denotes a proved statement (the tuple does not type-check otherwise) *)
+Definition proved_terms :=
+  (equality_start_no_panic,
+   make_list_start_no_panic,
+   simple_item_no_panic,
+   simple_assoc_probe_no_panic,
+   simple_end_list_no_panic,
+   simple_concat_slice_window_no_panic,
+   conversion_depth_bounded,
+   usize_of_num_no_panic,
+   size_iter_no_panic,
+   vec_iter_no_panic,
+   block_prefix_slice_no_panic,
+   data_run_slice_no_panic,
+   block_get_no_panic,
+   block_push_no_panic,
+   realloc_copy_no_panic,
+   bsearch_no_panic,
+   basic_assoc_slice_no_panic,
+   extents_no_panic,
+   concat_iter_no_panic,
+   basic_end_list_slice_no_panic,
+   pop_frame_no_panic,
+   bytes_conv_slice_no_panic,
+   bytes_to_i32_no_panic,
+   list_item_in_range_some).
 
 Definition proved : list string :=
   [ "equality_start_no_panic"; "make_list_start_no_panic"; "simple_item_no_panic"; "simple_assoc_probe_no_panic";
